@@ -299,6 +299,7 @@ func (es *EventSystem) consumeEvents() {
 			// gracefully handle lagging subscribers
 			// the read lock is kept until the send is over: eventLoop closes the topic channel
 			// under the write lock, and a send on a closed channel panics
+			verifYield("consume-before-send", ev.Query)
 			t := time.NewTimer(time.Second)
 			select {
 			case <-t.C:
